@@ -16,6 +16,7 @@ def check(ctx):
     ctx.rule("C07.L8", "no blocking primitive and no user-reaching call inside any engine lock region; public queue protocol only")
     ctx.assume("calls are assumed to terminate; Thread.start() failing half-way is outside the fault model")
     ctx.rule("C07.L10", "the engine evaluated as a whole on every small multigraph, failing set, max_errors, scheduler, worker count and dequeue order: queue.join() returns, every worker gets a sentinel and exits, every started thread is joined before the engine returns - also when starting a worker fails")
+    ctx.run(E.rule_queue_is_library_queue, "C07.L5", ctx.model.one_func("run_function_on_graph", "ENGINE"))
     from .engineeval import rule_engine_evaluated
     ctx.run(rule_engine_evaluated, "C07.L10", None, ("hang", "joined"), kinds=("run", "startup"))
     r = E.discover(ctx.model)
